@@ -44,10 +44,11 @@ def FL(buffered=False, filters=(), cached=False, deco=False):
 # --------------------------------------------------------------------------------------------- source text
 
 class _Src:
-    def __init__(self):
+    def __init__(self, prefix=""):
         self.out = []
         self.line = 1
         self.bol = True
+        self.prefix = prefix    # of the URIs of the template set ("<prefix>t<i>.html")
         self.anon_line = {}     # block id -> line of its <%block> tag
 
     def emit(self, s):
@@ -171,7 +172,7 @@ def _node_src(s, n):
         f = (' filter="%s"' % ", ".join("flt%d" % i for i in n[1])) if n[1] else ""
         s.emit("<%%text%s>%s</%%text>" % (f, n[2]))
     elif k == "inc":
-        s.emit('<%%include file="t%d.html"/>' % n[1])
+        s.emit('<%%include file="%st%d.html"/>' % (s.prefix, n[1]))
     elif k == "ret":
         s.emit("<% return '' %>")
     elif k == "brk":
@@ -182,10 +183,11 @@ def _node_src(s, n):
         raise ValueError(n)
 
 
-def to_source(body):
-    """(source text, {anonymous block id: line})"""
+def to_source(body, prefix=""):
+    """(source text, {anonymous block id: line}); `prefix`: of the URIs of the set (mako keys several registries
+    by the module id derived from the URI, so every compiled set should get its own)"""
     from harness.tmpl_rt import PRELUDE
-    s = _Src()
+    s = _Src(prefix)
     s.emit(PRELUDE)
     _body_src(s, body)
     return "".join(s.out), dict(s.anon_line)
@@ -360,6 +362,59 @@ def ancestors(path):
     return res
 
 
+def closed(bodies):
+    """every def that is called and every variable that is read is bound somewhere in the set (shrinking must
+    not manufacture dangling names: an unbound name is a different failure)"""
+    defs, binders, used_defs, used_vars = set(), set(), set(), set()
+
+    def ex(e):
+        if e[0] == "var":
+            used_vars.add(e[1])
+        elif e[0] == "cat":
+            ex(e[1]); ex(e[2])
+        elif e[0] == "filt":
+            ex(e[2])
+        elif e[0] in ("call", "capture", "caller"):
+            if e[0] != "caller":
+                used_defs.add(e[1])
+            for a in e[2]:
+                ex(a)
+    for b in bodies:
+        for _, n in walk(b):
+            k = n[0]
+            if k in ("def", "block"):
+                defs.add(n[1])
+                if k == "def":
+                    binders.update(n[2])
+            elif k == "for":
+                binders.add(n[1])
+                for e in n[2]:
+                    ex(e)
+            elif k == "call":
+                binders.update(n[2])
+                ex(n[1])
+            elif k in ("expr", "if"):
+                ex(n[1])
+    return used_defs <= defs and used_vars <= binders
+
+
+def loop_context_at(body, path):
+    """is the node at `path` inside a `% for` with a loop context of the same callable?"""
+    from harness.ref_render import _mentions_loop_deep
+    cur = body
+    p = list(path)
+    inloop = False
+    while len(p) > 1:
+        n = cur[p[0]]
+        if n[0] == "for" and _mentions_loop_deep(n):
+            inloop = True
+        elif n[0] in ("def", "block", "call"):
+            inloop = False
+        cur = n[p[1]]
+        p = p[2:]
+    return inloop
+
+
 def shrinks(bodies):
     """candidate smaller template sets (tree reduction): drop a node, replace a subtree by text, unwrap a
     construct into its body, drop a flag, shorten a text"""
@@ -406,7 +461,7 @@ def shrink_set(bodies, fails, max_tests=400):
             if tests > max_tests:
                 break
             try:
-                bad = fails(cand)
+                bad = closed(cand) and fails(cand)
             except Exception:
                 bad = False
             if bad:
